@@ -1132,8 +1132,12 @@ def gen_setup_case(r):
             cea=[r.uniform(0.001, 0.01), r.uniform(0.001, 0.01)], ceb=[r.uniform(0.1, 0.4), r.uniform(0.1, 0.4)]))
     if not any(p['ar_kind'] == 'calc' for p in phases):
         q = r.choice(phases); q['shape'] = r.choice(SHAPES[1:]); q['ar_kind'] = 'calc'; q['site'] = r.choice(SITES[:2])
+    gbE = r.uniform(0.1, 0.3)
+    for q in phases:       # grain-boundary sites need gbEnergy / (2 gamma) below the site's limit (documented ValueError otherwise)
+        if q['site'] in SITES[2:]:
+            q['gamma'] = gbE / (2 * r.uniform(0.1, 0.75))
     return dict(phases=phases, T=r.uniform(400, 800), x0=[r.uniform(0.003, 0.01), r.uniform(0.003, 0.01)], vmAlpha=r.choice([1e-5, 7.1e-6]),
-                gbE=r.uniform(0.1, 0.3), grain=r.choice([10, 100]), disl=10 ** r.uniform(12, 15), bulkN0=10 ** r.uniform(26, 29), part='setup')
+                gbE=gbE, grain=r.choice([10, 100]), disl=10 ** r.uniform(12, 15), bulkN0=10 ** r.uniform(26, 29), part='setup')
 
 
 def run_setup(case, order):
